@@ -14,6 +14,12 @@ def dispatch(prop):
         from . import check_bucket
         return (lambda tier: check_bucket.run(prop, tier)), \
                (lambda path: check_bucket.replay(prop, path))
+    simple = {'C09': 'check_isolation', 'C10': 'check_cache', 'C11': 'check_diskcache',
+              'C12': 'check_random', 'C13': 'check_seeds', 'C19': 'check_database'}
+    if prop in simple:
+        import importlib
+        mod = importlib.import_module('harness.' + simple[prop])
+        return (lambda tier: mod.run(prop, tier)), (lambda path: mod.replay(prop, path))
     if prop == 'C08':
         from . import check_demand
         return (lambda tier: check_demand.run(prop, tier)), \
